@@ -32,8 +32,11 @@ RULE = ('pairs of public functions evaluated on the same matrix: all undirected 
         'pair, and every modelled member against its model (per-node clustering through the statement-level model with the visible quotient); the inexpensive '
         'pairs (clustering, transitivity, degrees/strengths, distance, global efficiency, assortativity flags 0-4) on random graphs n = 9..16 with and '
         'without self-connections; assortativity_wei/_bin flags 1-4 as direct pairs on every 0/1 matrix; the AST fact `first use of the matrix is '
-        'binarize(matrix)` for the eight binarising routines; non-trivial = the matrix has at least one edge (self-connection cases: at least one '
-        'self-connection); distinct by hash of (pair, matrix)')
+        'binarize(matrix)` for the eight binarising routines; STRESS FAMILIES (pairs only; the two members carry very different numbers for the same answer): dense block + long '
+        'tail (K8..K20 + chain of 33..70, one-way or both ways, n = 52..80; walk counts beyond binary32 in the matrix-power routines) for distance_wei / distance_bin, the hop counts and '
+        'the global efficiencies; braids (41..47 layers of 3 / 63..69 layers of 2 nodes between two end nodes, n = 125..140, >= 2^63 shortest routes) for betweenness_wei / _bin and '
+        'edge_betweenness_wei / _bin - one of each per quick run, eight + six in the thorough tier = the escalated pass on a changed tree (run FIRST there); '
+        'non-trivial = the matrix has at least one edge (self-connection cases: at least one self-connection); distinct by hash of (pair, matrix)')
 ASSUMES = ['PROVED between the Coq models: clustering_coef wu/bu wd/bd bd/bu wd/wu, transitivity likewise, strengths/degrees, '
            'in/out-degree on symmetric input; distance_wei/distance_bin (D and hop counts), efficiency_wei/efficiency_bin global and '
            'local, assortativity_wei/assortativity_bin (flags 0-4) on 0/1 input; f(W)==f(binarize(W)) for degrees_*, assortativity_bin '
@@ -355,6 +358,32 @@ class Pairs:
             ctx.check(all_finite(a) and all_finite(b), key + ':finite', 'non-finite entry: %r vs %r' % (brief(a), brief(b)), case)
         return a
 
+    def pair_big(self, key, case0, A, f, g, family, t=120.0):
+        """pair() for a network of 50..140 nodes given as a float array: the case names its construction instead of listing the matrix"""
+        ctx = self.ctx
+        case = dict(case0, pair=key)
+        ctx.case(case, nontrivial=True)
+        ctx.count('pair:' + key); ctx.count('family:' + family); ctx.count('stress:n=%d' % len(A))
+        ctx.take_variants()
+        out = []
+        for h in (f, g):
+            try:
+                with np.errstate(all='ignore'):
+                    out.append(call(h, A.copy(), _t=t))
+            except Exception as e:
+                out.append(e)
+        a, b = out
+        tie_variants(case, since_take=True)
+        if isinstance(a, Exception) or isinstance(b, Exception):
+            ctx.fail(key + ':raises', 'left: %r right: %r' % (a if isinstance(a, Exception) else 'ok', b if isinstance(b, Exception) else 'ok'), case)
+            return None
+        if not same(a, b):
+            xa, xb = [np.asarray(x[0] if isinstance(x, tuple) else x, dtype=float) for x in (a, b)]
+            bad = np.argwhere(~((xa == xb) | (np.isnan(xa) & np.isnan(xb)) | (np.abs(xa - xb) <= TOL * np.maximum(1.0, np.abs(xa)))))
+            where = tuple(int(x) for x in bad[0]) if len(bad) else ()
+            ctx.fail(key, 'the two routines differ in %d entries, first at %s: %r vs %r' % (len(bad), where, xa[where].tolist() if len(bad) else None, xb[where].tolist() if len(bad) else None), case)
+        return a
+
     def ignores(self, fn, W, f, family, tolerate=()):
         """documented to ignore weights: f(W) == f(binarize(W))"""
         ctx = self.ctx
@@ -657,6 +686,89 @@ class Pairs:
             self.ignores('edge_nei_overlap_bu', W, lambda M: tuple(bct.edge_nei_overlap_bu(M)), family, tolerate=(ZeroDivisionError,))
 
 
+# ---------------------------------------------------------------- stress families: numeric range of walk / path counts (pairs only)
+def stress_rng(ctx, salt=1):
+    """a random state of its own for the stress families (derived from VERIF_SEED like ctx.nprng; the streams of the other
+    generators stay what they were)"""
+    return np.random.RandomState((ctx.seed * 7919 + int(ctx.pid[1:]) + 1000003 * salt + (500009 if ctx.escalated else 0)) % (2 ** 31))
+
+
+def g_clique_chain(r, k, c, extra, one_way):
+    """K_k, a chain of c nodes hanging off one of its nodes (one_way: pointing away from the block only), `extra` nodes forming a
+    path of their own; labels permuted.  Walk counts inside the block grow like (k-1)^round while the end of the chain is only
+    reached in round c+1."""
+    n = k + c + extra
+    A = np.zeros((n, n))
+    A[:k, :k] = 1
+    np.fill_diagonal(A, 0)
+    prev = 0
+    for i in range(k, k + c):
+        A[prev, i] = 1
+        if not one_way:
+            A[i, prev] = 1
+        prev = i
+    for i in range(k + c, n - 1):
+        A[i, i + 1] = A[i + 1, i] = 1
+    p = [int(x) for x in r.permutation(n)]
+    return A[np.ix_(p, p)], p
+
+
+def g_braid(r, width, layers, directed):
+    """end node - `layers` layers of `width` nodes, consecutive layers completely connected - end node; width**layers shortest
+    routes between the two ends; labels permuted"""
+    L_, n = [], 0
+    for wd in [1] + [width] * layers + [1]:
+        L_.append(list(range(n, n + wd)))
+        n += wd
+    A = np.zeros((n, n))
+    for la, lb in zip(L_, L_[1:]):
+        for a in la:
+            for b in lb:
+                A[a, b] = 1
+                if not directed:
+                    A[b, a] = 1
+    p = [int(x) for x in r.permutation(n)]
+    return A[np.ix_(p, p)], p
+
+
+def stress_families(ctx, P):
+    """0/1 matrices on which a weighted routine and its binary counterpart carry very different NUMBERS for the same answer:
+    dense block + long tail (walk counts (k-1)^c > 3.4e38 in the matrix-power routines, none in Dijkstra) for distance_wei /
+    distance_bin and the global efficiencies; braids with width^layers >= 2^63 shortest routes for the betweenness pairs.
+    One of each per quick run; the size grid in the thorough tier (= the escalated pass on a changed tree, where this block
+    runs first)."""
+    bct = P.bct
+    r = stress_rng(ctx)
+    grid = [(8, 48), (8, 70), (10, 45), (12, 40), (12, 44), (14, 60), (16, 36), (20, 33)]
+    if ctx.thorough:
+        cc = [(k, c, (0, 2)[i % 2], bool(i % 3 == 1)) for i, (k, c) in enumerate(grid)]
+        br = [(3, 41, False), (3, int(r.randint(42, 48)), True), (2, 63, True), (2, int(r.randint(64, 70)), False), (3, 20, False), (2, 33, True)]
+    else:
+        k, c = grid[int(r.randint(len(grid)))]
+        cc = [(k, c, int(r.randint(0, 3)), bool(r.rand() < 0.4))]
+        br = [[(3, int(r.randint(41, 45)), bool(r.rand() < 0.5)), (2, int(r.randint(63, 67)), bool(r.rand() < 0.5))][int(r.randint(2))]]
+    for k, c, extra, one_way in cc:
+        A, p = g_clique_chain(r, k, c, extra, one_way)
+        case = {'family': 'clique+chain', 'k': k, 'c': c, 'extra': extra, 'one_way': one_way, 'perm': p,
+                'construction': 'K_k on nodes 0..k-1, chain 0 - k - ... - k+c-1 (one_way: away from the block only), path k+c - ... - n-1; A = A[ix_(perm, perm)]'}
+        P.pair_big('distance_wei/distance_bin', case, A, lambda M: bct.distance_wei(M)[0], bct.distance_bin, 'stress_clique_chain')
+        P.pair_big('distance_wei_hops/distance_bin', case, A,
+                   lambda M: (lambda DB: np.where(np.isinf(DB[0]), np.inf, DB[1]))(bct.distance_wei(M)), bct.distance_bin, 'stress_clique_chain')
+        P.pair_big('efficiency_wei/efficiency_bin:global', case, A, bct.efficiency_wei, bct.efficiency_bin, 'stress_clique_chain')
+    for w, l, directed in br:
+        A, p = g_braid(r, w, l, directed)
+        case = {'family': 'braid', 'width': w, 'layers': l, 'directed': directed, 'perm': p,
+                'construction': 'layers of [1] + [width]*layers + [1] nodes numbered consecutively, consecutive layers completely connected (both directions unless directed); A = A[ix_(perm, perm)]'}
+        P.pair_big('betweenness_wei/betweenness_bin', case, A, bct.betweenness_wei, bct.betweenness_bin, 'stress_braid')
+        P.pair_big('edge_betweenness_wei/edge_betweenness_bin', case, A, lambda M: tuple(bct.edge_betweenness_wei(M)),
+                   lambda M: tuple(bct.edge_betweenness_bin(M)), 'stress_braid')
+
+
+def stress_only(ctx, bct):
+    """development aid: the stress families alone"""
+    stress_families(ctx, Pairs(ctx, bct))
+
+
 def any_w(r):
     return F(int(r.choice([1, 2, 3, 5, 8, 12, 20])), 8)
 
@@ -667,6 +779,10 @@ def run(ctx):
     r = ctx.nprng
     P = Pairs(ctx, bct)
     sink = io.StringIO()
+    # stress families (numeric range; pairs only): FIRST in the escalated pass of a changed tree (its time cap must not cut them
+    # off), LAST otherwise (the first calls of every routine stay the small inputs of the main stream)
+    if ctx.escalated:
+        stress_families(ctx, P)
     # ---- the SOURCE binarises first (fail-closed AST fact; C10_binarize_first_suffices turns it into f(W) = f(binarize(W)))
     facts = {}
     for fn, param in BINARIZES_FIRST:
@@ -802,6 +918,9 @@ def run(ctx):
                 P.corr_ignore(W, True)
             if all(W[i][j] == W[j][i] for i in range(3) for j in range(3)):
                 P.ignore_weights(W, False, 'exhaustive_weighted_und3')
+
+    if not ctx.escalated:
+        stress_families(ctx, P)
 
     # ---- correspondence for the modelled routines (degree.py here; clustering/transitivity also in C09)
     res = run_model(ID, P.lines)
